@@ -207,9 +207,14 @@ func workerMain(args []string) {
 
 func runHarness(prog *ssa.Program, hp *ssa.Package, fn *ssa.Function, thorough bool, seed int64, solver string, maxPaths int) (res *HarnessResult) {
 	// fresh term table per harness keeps memory bounded
-	termTab = map[string]*Term{}
+	termTab = map[tkey]*Term{}
+	litCache = map[string]*ArrNode{}
 	in := &Interp{prog: prog, repoPkgs: map[*ssa.Package]bool{}, loopBound: 64, thorough: thorough, seed: seed, harnessPkg: hp, maxPaths: maxPaths}
-	in.sol = NewSolver(solver, 60000)
+	tmo := 60000
+	if v := os.Getenv("SYMGO_TIMEOUT_MS"); v != "" {
+		tmo, _ = strconv.Atoi(v)
+	}
+	in.sol = NewSolver(solver, tmo)
 	defer in.sol.Close()
 	in.errType = types.Universe.Lookup("error").Type()
 	for _, p := range prog.AllPackages() {
@@ -233,6 +238,9 @@ func runHarness(prog *ssa.Program, hp *ssa.Package, fn *ssa.Function, thorough b
 		res.SolverS = in.sol.dur.Seconds()
 		res.MaxQueryMs = int(in.sol.maxQ.Milliseconds())
 		res.WallS = time.Since(t0).Seconds()
+		if in.sol.fbCalls > 0 {
+			res.Notes = append(res.Notes, fmt.Sprintf("%d queries decided by the non-incremental fallback solver", in.sol.fbCalls))
+		}
 		if in.sol.nerr > 0 {
 			res.Outcomes = append(res.Outcomes, &Outcome{Kind: "inconclusive", ID: "solver-error", Msg: fmt.Sprintf("%d solver error lines", in.sol.nerr), Harness: fn.Name()})
 		}
